@@ -154,7 +154,7 @@ def judge(pa, pb, da, db, va, vb, r):
             w1 = bool(torch.allclose(A, B, rtol=rtol, atol=atol))
             w2 = bool(torch.allclose(B, A, rtol=rtol, atol=atol))
             g1 = a.allclose(b, rtol=rtol, atol=atol)
-            g2 = b.allclose(a, rtol=rtol, atol=atol)
+            g2 = b.allclose(a, rtol, atol)          # positional, in the order of the statement: (other, rtol, atol)
             if bool(g1) != w1 or bool(g2) != w2:
                 r.bad('allclose-wrong', 'indices.PatternedTensor.allclose', 'allclose', '%s rtol=%g atol=%g: allclose=%r / reversed %r, torch %r / %r' % (desc, rtol, atol, g1, g2, w1, w2), case, key)
                 return
